@@ -58,7 +58,8 @@ def main():
         "an honest node keeps its partial-signature store for the lifetime of the duty: trimming at expiry and restarts that lose the in-memory stores are not modelled (after a restart the one-root-per-share rule rests on consensus agreement and the validator client's slashing protection)",
         "the per-node rules of the model abstract parsigdb (C07) and sigagg (C09); consensus agreement (C02) and duty-store uniqueness (C06) are hypotheses of C01_honest_sign_same only",
         "the wiring obligation covers core.Wire and the WireOption constructors of package core; subscribers registered elsewhere (app.go: TestConfig.BroadcastCallback on sigAgg) are outside it",
-        "simulation: scheduler, fetcher, consensus, ParSigEx (network) and broadcaster are harness stubs; the consensus stub decides the first proposal made in the cluster and hands the same decided set to every node; messages make the protobuf round trip and pass parsigex.NewEth2Verifier as in ParSigEx.handle, except in 'garbage' scenarios which bypass it to exercise SigAgg's own verification; WithAsyncRetry is not applied",
+        "simulation, second mode (kinds real / real-staleprep): the consensus stub is replaced by the real core/consensus/qbft component on every honest node (qbft.NewConsensus directly, not through the consensus controller; default feature set, real timers, real time), its libp2p host is an in-memory fake controlled by the harness (delay, duplication, loss, crash, late start, an adversarial stale-PREPARE schedule); Byzantine nodes are silent in consensus; scheduler, fetcher (one different candidate per node), ParSigEx and broadcaster stay stubs; the consensus phase completes before the partial-signature phase starts",
+        "simulation, first mode: scheduler, fetcher, consensus, ParSigEx (network) and broadcaster are harness stubs; the consensus stub decides the first proposal made in the cluster and hands the same decided set to every node; messages make the protobuf round trip and pass parsigex.NewEth2Verifier as in ParSigEx.handle, except in 'garbage' scenarios which bypass it to exercise SigAgg's own verification; WithAsyncRetry is not applied",
     ]
     run_translator(R)
     R.proofs()
@@ -67,7 +68,8 @@ def main():
         R.broke("proof:Flow/Pipeline.v does not build", log[-2000:])
         R.finish()
     n = int(os.environ.get("VERIF_N", 4000 if R.thorough else 300))
-    rc, out, od = vp.go_harness("pipeline", env_extra={"VERIF_N": n}, timeout=1500)
+    nreal = int(os.environ.get("VERIF_REAL", 60 if R.thorough else 12))
+    rc, out, od = vp.go_harness("pipeline", env_extra={"VERIF_N": n, "VERIF_REAL": nreal}, timeout=1500)
     if rc != 0:
         R.broke("correspondence:harness pipeline failed to run", out[-3000:])
         R.finish()
@@ -101,6 +103,20 @@ def main():
             lk[l.split(" ", 1)[0]] += 1
     R.coverage["input_distribution"] = {"kinds": dict(kinds), "cluster_shapes": dict(sorted(sizes.items())), "labels_total": nlabels,
                                         "label_kinds": dict(lk), "events": dict(sorted(stats.items()))}
+    real = [r for r in inb if r["kind"].startswith("real")]
+    if real and not os.environ.get("VERIF_REPLAY"):
+        cs = collections.Counter()
+        for r in real:
+            for k, v in (r["stats"] or {}).items():
+                if k.startswith("cons_"):
+                    cs[k] += v
+        R.coverage["real_consensus_mode"] = {
+            "runs": len(real), "runs_with_decision": sum(1 for r in real if (r["stats"] or {}).get("cons_decided")),
+            "runs_with_outputs": sum(1 for r in real if r["outputs"]), "adversarial_stale_prepare_runs": sum(1 for r in real if r["kind"] == "real-staleprep"),
+            "cluster_sizes": dict(collections.Counter("n=%d" % r["n"] for r in real)), "events": dict(sorted(cs.items())),
+            "note": "every honest node runs the real core/consensus/qbft component (real round timers, real time) over an in-memory fake of the libp2p host; decisions, DutyDB content, partial signatures, threshold, aggregate all from real components; extra monitors: all honest DutyDBs answer alike, decided value was proposed by an honest node; not bit-for-bit replayable, only positive observations count"}
+        if not any((r["stats"] or {}).get("cons_decided") for r in real):
+            R.broke("real-mode:no run of the real consensus component decided anything (harness or timers broken)")
     R.add_samples([{"spec": {"id": r["id"], "kind": r["kind"], "seed": r["seed"]}, "cfg": r["cfg"], "labels": (r["labels"] or [])[:60]} for r in inb if r.get("nontrivial")][:2])
 
     def replay_of(r):
